@@ -19,6 +19,7 @@ import (
 	"context"
 	"encoding/json"
 	"fmt"
+	"hash/fnv"
 	"os"
 	"runtime"
 	"runtime/debug"
@@ -86,7 +87,9 @@ var pumps = []pump{
 	{"filter", 9, func(d int) string {
 		return "SELECT " + rep("COUNT(*) FILTER (WHERE ", d) + "(a > 0)" + rep(" > 0)", d) + " FROM t"
 	}},
-	{"tuple", 4, func(d int) string { return "SELECT a FROM t WHERE (a, b) IN (" + rep("(1, ", d) + "(2)" + rep(")", d) + ")" }},
+	{"tuple", 4, func(d int) string {
+		return "SELECT a FROM t WHERE (a, b) IN (" + rep("(1, ", d) + "(2)" + rep(")", d) + ")"
+	}},
 	{"interval-arith", 4, func(d int) string { return "SELECT " + rep("(a + ", d) + "(1)" + rep(")", d) + " FROM t" }},
 	{"lateral", 8, func(d int) string {
 		return rep("SELECT * FROM LATERAL (", d) + "SELECT (a) FROM t" + rep(") x", d)
@@ -130,6 +133,39 @@ var pumps = []pump{
 	{"line-comment-chain", 0, func(d int) string { return "SELECT " + rep("--\n", d) + " 1" }},
 }
 
+// modelPumps adds the contexts of Pumps.tla (one per operand position) to the catalogue. The parent writes them
+// to a file whose name the children get through the environment.
+type modelCtx struct {
+	Name  string   `json:"name"`
+	Level string   `json:"level"`
+	Pre   []string `json:"pre"`
+	Post  []string `json:"post"`
+}
+
+func addModelPumps(cs []modelCtx) {
+	for _, c := range cs {
+		c := c
+		pre, post := strings.Join(c.Pre, " ")+" ", " "+strings.Join(c.Post, " ")
+		build := func(d int) string { return "SELECT " + rep(pre, d) + "a" + rep(post, d) + " FROM t" }
+		if c.Level == "statement" {
+			build = func(d int) string { return rep(pre, d) + "SELECT (1)" + rep(post, d) }
+		}
+		pumps = append(pumps, pump{Name: "model:" + c.Name, Tokens: len(c.Pre) + len(c.Post), Build: build})
+	}
+}
+
+func loadModelPumps(path string) {
+	b, err := os.ReadFile(path)
+	if err != nil {
+		core.Fatalf("model pumps: %v", err)
+	}
+	var cs []modelCtx
+	if err := json.Unmarshal(b, &cs); err != nil {
+		core.Fatalf("model pumps: %v", err)
+	}
+	addModelPumps(cs)
+}
+
 type outcome struct {
 	Accepted bool     `json:"accepted"`
 	Code     string   `json:"code"`
@@ -168,6 +204,9 @@ func (c *stackCtx) Err() error {
 
 func child(args []string) {
 	// args: mode pump depth outfile
+	if f := os.Getenv("VERIF_C02_PUMPS"); f != "" {
+		loadModelPumps(f)
+	}
 	mode, name, out := args[0], args[1], args[3]
 	d, _ := strconv.Atoi(args[2])
 	var p *pump
@@ -237,7 +276,10 @@ type job struct {
 }
 
 func runJob(j *job) {
-	out := fmt.Sprintf("%s/verif-c02-%d-%s-%s-%d.json", os.TempDir(), os.Getpid(), j.mode, j.pump, j.depth)
+	// pump names may hold characters that cannot stand in a file name: the name is hashed
+	h := fnv.New64a()
+	h.Write([]byte(j.pump))
+	out := fmt.Sprintf("%s/verif-c02-%d-%s-%x-%d.json", os.TempDir(), os.Getpid(), j.mode, h.Sum64(), j.depth)
 	r := run.RunChild([]string{"--child", j.mode, j.pump, strconv.Itoa(j.depth)}, out+".cov", 240*time.Second)
 	if r.TimedOut {
 		j.timed = true
@@ -383,6 +425,34 @@ func nesting(tier string) {
 	if tier == "thorough" {
 		depths = append(depths, 5, 20, 80, 98, 105, 150, 300, 500, 2000, 5000, 30000, 300000)
 	}
+	// the contexts of Pumps.tla join the catalogue
+	{
+		r := core.MustTLC(core.TLCOpts{Spec: "Pumps", Cfg: "Pumps.cfg", Workers: 2, Timeout: 5 * time.Minute})
+		run.AddTLC(r.Stat("self-embedding contexts, one per operand position: WellFormed, UniqueNames"))
+		var cs []modelCtx
+		for _, line := range r.Cases {
+			var c modelCtx
+			if err := json.Unmarshal([]byte(line), &c); err != nil {
+				core.Fatalf("bad context %q: %v", line, err)
+			}
+			cs = append(cs, c)
+		}
+		if len(cs) < 50 {
+			core.Fatalf("Pumps.tla printed only %d contexts", len(cs))
+		}
+		sort.Slice(cs, func(i, j int) bool { return cs[i].Name < cs[j].Name })
+		f, err := os.CreateTemp("", "verif-c02-pumps-*.json")
+		if err != nil {
+			core.Fatalf("%v", err)
+		}
+		core.RemoveAtExit(f.Name())
+		b, _ := json.Marshal(cs)
+		f.Write(b)
+		f.Close()
+		os.Setenv("VERIF_C02_PUMPS", f.Name())
+		addModelPumps(cs)
+		run.Extra["model_contexts"] = len(cs)
+	}
 	var jobs []*job
 	for _, p := range pumps {
 		max := 990000
@@ -392,6 +462,9 @@ func nesting(tier string) {
 			max = 2000000 // comments produce no tokens: bounded by the input size only
 		}
 		ds := append([]int{}, depths...)
+		if strings.HasPrefix(p.Name, "model:") && tier != "thorough" { // a context of Pumps.tla
+			ds = []int{1, 2, 3, 50, 99, 101, 120, 1000, 20000}
+		}
 		ds = append(ds, max)
 		seen := map[int]bool{}
 		for _, d := range ds {
